@@ -141,6 +141,7 @@ def sig_of(diff):
 
 
 class C12(StoreProp):
+    p_file = 0.012      # histories that start from a model read from an INP file shipped with the package
     id = 'C12'
     quick_runs = 6000
     thorough_runs = 40000
@@ -155,7 +156,8 @@ class C12(StoreProp):
             'version (2.0/2.2) placed inside it. At every INP restart the re-read model must equal the written one on everything the statement lists '
             '(structural comparison in SI, floats to rtol 1e-5 + 3e-7), the second write/read cycle must reproduce the first file text exactly '
             '(title excluded) and the first reload (to 1e-9), and the history continues on the reloaded model. non-trivial = an INP restart of a model with '
-            '>= 3 links and a control or rule; distinct = digest of the executed operation sequence')
+            '>= 3 links and a control or rule; distinct = digest of the executed operation sequence. 1.2 % of the cases instead start from a model read '
+            'from an INP file shipped with the package (Net1, Net2, Net3, ky10, Net6) and apply 2-6 positional edits and restarts to it.')
     assumptions = ['WNTR-only settings are not generated in the compared part: pattern interpolation, per-junction PDD parameters, leaks, empty patterns, '
                    "report_timestep='ALL'; typed curves nothing refers to are left out of the comparison",
                    'model name (becomes the file name), source names and simple-control names are not compared (the format does not store them)',
